@@ -59,8 +59,12 @@ NeverExpires == \A c \in EColls, k \in EKeys : TRUE
 (* behaviour generation: random scripts of operations (all at time 0) *)
 GenNext ==
     /\ nops < MaxOps
-    /\ pk' = [op |-> RandomElement(EOps), coll |-> RandomElement(EColls), key |-> RandomElement(IF RandomElement(1..10) <= 7 THEN {"k1"} ELSE EKeys),
-              e |-> IF RandomElement(1..12) = 1 THEN 8 ELSE RandomElement({0, 2, 2, 3, 4}), rel |-> RandomElement(1..4) = 1]
+    \* (every other deletion is followed by an expiry-preserving write of the same key that names an expiry: the key's
+    \*  expiry - none - is what must stay in force)
+    /\ pk' = IF Len(hist) > 0 /\ hist[Len(hist)].op = "Delete" /\ RandomElement(1..2) = 1
+             THEN [op |-> "SetPres", coll |-> hist[Len(hist)].coll, key |-> hist[Len(hist)].key, e |-> RandomElement({2, 3}), rel |-> RandomElement(1..4) = 1]
+             ELSE [op |-> RandomElement(EOps), coll |-> RandomElement(EColls), key |-> RandomElement(IF RandomElement(1..10) <= 7 THEN {"k1"} ELSE EKeys),
+                   e |-> IF RandomElement(1..12) = 1 THEN 8 ELSE RandomElement({0, 2, 2, 3, 4}), rel |-> RandomElement(1..4) = 1]
     /\ Do(pk'.op, pk'.coll, pk'.key, pk'.e)
     /\ hist' = Append(hist, pk')
     /\ (nops' < MaxOps \/ PrintT("BEHAVIOUR " \o ToJson(hist')))
